@@ -787,6 +787,29 @@ func ruleNoDeadFieldStores(c *core.Ctx) {
 			}
 		}
 		o.Count(1)
+		// the state may be completed in a local and installed afterwards: state := NewState(..); state.Version = v; b.State = state
+		if newState != nil && setVersion == nil {
+			info := fn.Info()
+			as := newState.AST.(*ast.AssignStmt)
+			if loc, isVar := core.ObjOf(info, as.Rhs[0]).(*types.Var); isVar && !loc.IsField() {
+				_, isPtr := loc.Type().Underlying().(*types.Pointer)
+				for _, v := range g.Vs {
+					a2, ok := v.AST.(*ast.AssignStmt)
+					if !ok || len(a2.Lhs) != 1 {
+						continue
+					}
+					sel, isSel := ast.Unparen(a2.Lhs[0]).(*ast.SelectorExpr)
+					if !isSel || sel.Sel.Name != "Version" || core.ObjOf(info, sel.X) != loc {
+						continue
+					}
+					if g.Dominates(v, newState) || isPtr && g.Dominates(newState, v) {
+						return // set on the value that is installed
+					}
+					o.Fail("the version is stored into a copy of the state after the state was installed")
+					return
+				}
+			}
+		}
 		o.Require(newState != nil && setVersion != nil, "Reset does not create a state and set its version")
 		if newState != nil && setVersion != nil {
 			o.Require(g.Dominates(newState, setVersion), "the version is not stored into the newly created state")
